@@ -73,6 +73,7 @@ var registry = map[string]runner{
 	"C04/tree":         wtree.Run,
 	"C04/latefaults":   w04.Run,
 	"C07/latefaults":   w04.Run,
+	"C08/latefaults":   w04.Run,
 	"C06/tree":         wtree.Run,
 	"C06/independence": w06.Run,
 	"C07/tree":         wtree.Run,
